@@ -529,7 +529,16 @@ func (e *Enc) contractCall(x *ssa.Call, callee *ssa.Function, ct *Contract, cc *
 		r.assume(fmt.Sprintf("(=> %s (= %s (%s %s)))", reach, res[0], fname, strings.Join(as, " ")))
 	}
 	post := &SpecEnv{e: e, vars: vars, cur: nil, old: pre, errCtx: "call " + ct.Key + " ensures", noLocals: true}
-	for _, en := range ct.Ensures {
+	calleeShort := pkgShort(ct.Pkg) + "." + ct.shortName()
+	for i, en := range ct.Ensures {
+		oname := fmt.Sprintf("%s#ensures@%s", calleeShort, en.Name())
+		if en.Name() == "" {
+			oname = fmt.Sprintf("%s#ensures@wf%d", calleeShort, i+1)
+		}
+		if r.v.isKnownFinding(oname) || r.v.isKnownFinding(oname+".ret1") {
+			r.comment("postcondition " + oname + " is a listed known finding: not assumed")
+			continue
+		}
 		t := post.boolExpr(en.E)
 		r.assume(fmt.Sprintf("(=> %s %s)", reach, t))
 	}
